@@ -286,9 +286,41 @@ Proof.
 Qed.
 
 (* ------------------------------------------------------------------ gains *)
+(* The model takes the left/right arguments of complex_interp, the valid mask and the always-skipping request names
+   from Gen/Generated.v (regenerated from the source on every run).  These `_unfold` lemmas hold by computation only
+   while the source says: gains hold the end values, bandpasses are INVALID outside, valid = finite & on_target,
+   'all' / 'default' skip — if the source changes they (and so every theorem below) stop compiling. *)
+Lemma gain_value_unfold : forall rs tgs d c,
+  gain_value rs tgs d c = match gain_nodes rs tgs (target_at tgs d) c with
+                          | [] => None
+                          | ns => recip (cinterp Hold Hold ns (qn d))
+                          end.
+Proof. reflexivity. Qed.
+Lemma gain_node_unfold : forall tgs tg c (s : rsol),
+  gain_node tgs tg c s = match nth c (snd s) None with
+                         | Some v => if Z.eqb (target_at tgs (fst s)) tg then Some (qn (fst s), v) else None
+                         | None => None
+                         end.
+Proof. reflexivity. Qed.
+Lemma bandpass_corr_seg_unfold : forall cf df bp,
+  bandpass_corr_seg cf df bp = match valid_nodes cf bp with
+                               | [] => map (fun _ => None) df
+                               | ns => map (fun f => recip (cinterp Inval Inval ns f)) df
+                               end.
+Proof. reflexivity. Qed.
+Lemma is_group_unfold : forall r,
+  is_group r = match r with RStr s => (String.eqb s "all" || String.eqb s "default")%bool | RList _ => false end.
+Proof. intros [s|l]; [|reflexivity]. unfold is_group, mem_string. cbn [existsb skip_group_names]. rewrite orb_false_r. reflexivity. Qed.
+
+(* MODEL = SPEC: with the decisions regenerated from the current source the model of B and G is the documented rule *)
+Lemma bandpass_is_spec : forall cf df segs, bandpass_corr cf df segs = spec_bandpass_corr cf df segs.
+Proof. reflexivity. Qed.
+Lemma gain_is_spec : forall N sols targets, gain_corr N sols targets = spec_gain_corr N sols targets.
+Proof. reflexivity. Qed.
+
 Lemma gain_node_key : forall tgs tg c (a : rsol) (b : cnode), gain_node tgs tg c a = Some b -> fst b = qn (fst a).
 Proof.
-  intros tgs tg c a b H. unfold gain_node in H. destruct (nth c (snd a) None); [|discriminate].
+  intros tgs tg c a b H. rewrite gain_node_unfold in H. destruct (nth c (snd a) None); [|discriminate].
   destruct (Z.eqb _ tg); [|discriminate]. inversion H. reflexivity.
 Qed.
 Lemma gain_nodes_inc : forall rs tgs tg c, StronglySorted lt (map fst rs) -> cn_inc (gain_nodes rs tgs tg c).
@@ -310,9 +342,9 @@ Lemma gain_reproduces_valid : forall rs tgs e g c m p,
   StronglySorted lt (map fst rs) -> In (e, g) rs -> nth c g None = Some (m, p) -> ~ m == 0 ->
   exists m' p', gain_value rs tgs e c = Some (m', p') /\ m' == / m /\ congr1 p' (- p).
 Proof.
-  intros rs tgs e g c m p Hs Hi Hv Hm. unfold gain_value.
+  intros rs tgs e g c m p Hs Hi Hv Hm. rewrite gain_value_unfold.
   assert (Hin : In (qn e, (m, p)) (gain_nodes rs tgs (target_at tgs e) c)).
-  { apply fmap_in. exists (e, g). split; [exact Hi|]. unfold gain_node. cbn [fst snd]. unfold pv in *. rewrite Hv, Z.eqb_refl. reflexivity. }
+  { apply fmap_in. exists (e, g). split; [exact Hi|]. rewrite gain_node_unfold. cbn [fst snd]. unfold pv in *. rewrite Hv, Z.eqb_refl. reflexivity. }
   destruct (cinterp_exact_at_nodes Hold Hold _ (qn e) (qn e) m p (gain_nodes_inc rs tgs _ c Hs) Hin (Qeq_refl _))
     as [m1 [p1 [Hc [Em Cp]]]].
   destruct (gain_nodes rs tgs (target_at tgs e) c) as [|n t] eqn:En; [inversion Hin|].
@@ -323,8 +355,8 @@ Qed.
 Lemma gain_ignores_invalid : forall l1 l2 (s : rsol) tgs d c,
   nth c (snd s) None = None -> gain_value (l1 ++ s :: l2) tgs d c = gain_value (l1 ++ l2) tgs d c.
 Proof.
-  intros l1 l2 s tgs d c H. unfold gain_value, gain_nodes. rewrite !fmap_app. cbn [fmap].
-  unfold gain_node at 2. rewrite H. reflexivity.
+  intros l1 l2 s tgs d c H. rewrite !gain_value_unfold. unfold gain_nodes. rewrite !fmap_app. cbn [fmap].
+  rewrite (gain_node_unfold _ _ _ s), H. reflexivity.
 Qed.
 Lemma placeholder_ignored : forall l1 l2 e, real_sols (l1 ++ (e, None) :: l2) = real_sols (l1 ++ l2).
 Proof. intros. unfold real_sols. rewrite !fmap_app. reflexivity. Qed.
@@ -335,9 +367,9 @@ Lemma selfcal_target_isolation : forall rs rs' tgs d c,
   filter (on_target_of tgs d) rs = filter (on_target_of tgs d) rs' ->
   gain_value rs tgs d c = gain_value rs' tgs d c.
 Proof.
-  intros rs rs' tgs d c H. unfold gain_value, gain_nodes.
+  intros rs rs' tgs d c H. rewrite !gain_value_unfold. unfold gain_nodes.
   assert (K : forall a, on_target_of tgs d a = false -> gain_node tgs (target_at tgs d) c a = None).
-  { intros a Ha. unfold gain_node. unfold on_target_of in Ha. rewrite Ha. destruct (nth c (snd a) None); reflexivity. }
+  { intros a Ha. rewrite gain_node_unfold. unfold on_target_of in Ha. rewrite Ha. destruct (nth c (snd a) None); reflexivity. }
   rewrite <- (fmap_filter _ _ rs K), <- (fmap_filter _ _ rs' K), H. reflexivity.
 Qed.
 
@@ -347,7 +379,7 @@ Lemma gain_holds_first : forall rs tgs d c x0 m0 p0 t,
   gain_nodes rs tgs (target_at tgs d) c = (x0, (m0, p0)) :: t -> qn d <= x0 -> ~ m0 == 0 ->
   exists m' p', gain_value rs tgs d c = Some (m', p') /\ m' == / m0 /\ congr1 p' (- p0).
 Proof.
-  intros rs tgs d c x0 m0 p0 t Hs En Hd Hm. unfold gain_value. rewrite En, cinterp_hold.
+  intros rs tgs d c x0 m0 p0 t Hs En Hd Hm. rewrite gain_value_unfold. rewrite En, cinterp_hold.
   pose proof (gain_nodes_inc rs tgs (target_at tgs d) c Hs) as Hinc. rewrite En in Hinc.
   apply recip_congr; [| |exact Hm].
   - apply (interp_left x0 m0 (mag_nodes t)); [apply (mag_nodes_inc _ Hinc) | exact Hd].
@@ -376,7 +408,7 @@ Qed.
 Lemma bandpass_entry : forall cf df bp n t i, valid_nodes cf bp = n :: t -> (i < List.length df)%nat ->
   nth i (bandpass_corr_seg cf df bp) None = recip (cinterp Inval Inval (n :: t) (nth i df 0)).
 Proof.
-  intros cf df bp n t i E Hi. unfold bandpass_corr_seg. rewrite E.
+  intros cf df bp n t i E Hi. rewrite bandpass_corr_seg_unfold. rewrite E.
   rewrite (nth_indep _ None (recip (cinterp Inval Inval (n :: t) 0))) by (rewrite map_length; exact Hi).
   apply (map_nth (fun f => recip (cinterp Inval Inval (n :: t) f))).
 Qed.
@@ -397,7 +429,7 @@ Qed.
 (* no valid channel at all: everything INVALID *)
 Lemma bandpass_all_invalid : forall cf df bp, valid_nodes cf bp = [] ->
   bandpass_corr_seg cf df bp = map (fun _ => None) df.
-Proof. intros cf df bp E. unfold bandpass_corr_seg. rewrite E. reflexivity. Qed.
+Proof. intros cf df bp E. rewrite bandpass_corr_seg_unfold. rewrite E. reflexivity. Qed.
 
 Lemma valid_node_key : forall a b, valid_node a = Some b -> fst b = fst a.
 Proof. intros [x [v|]] b H; unfold valid_node in H; simpl in H; [inversion H; reflexivity | discriminate]. Qed.
@@ -533,7 +565,7 @@ Lemma normalise_all : forall streams, (forall s, In s streams -> has_dot s = fal
   normalise (RStr "all") streams =
   Some (flat_map (fun s => map (join_dot s) cal_product_types) streams, true).
 Proof.
-  intros streams H. unfold normalise. cbn [selection_to_list String.eqb Ascii.eqb Bool.eqb is_group orb].
+  intros streams H. unfold normalise. rewrite is_group_unfold. cbn [selection_to_list String.eqb Ascii.eqb Bool.eqb orb].
   change (selection_to_list (RStr "all") streams) with streams.
   rewrite expand_streams by (intros s Hs; split; [exact Hs | apply H; exact Hs]). reflexivity.
 Qed.
@@ -551,7 +583,7 @@ Proof. reflexivity. Qed.
 Lemma normalise_stream : forall streams s, In s streams -> has_dot s = false ->
   normalise (RList [s]) streams = Some (map (join_dot s) cal_product_types, true).
 Proof.
-  intros streams s Hin Hd. unfold normalise. cbn [selection_to_list is_group expand existsb orb].
+  intros streams s Hin Hd. unfold normalise. rewrite is_group_unfold. cbn [selection_to_list expand existsb orb].
   unfold expand_one. rewrite Hd, (mem_string_in _ _ Hin). cbn [negb orb]. rewrite app_nil_r. reflexivity.
 Qed.
 
@@ -562,7 +594,7 @@ Proof.
   assert (Hd : has_dot t = false).
   { revert Hin. unfold cal_product_types. cbn [In]. intros H.
     repeat (destruct H as [H|H]; [subst t; reflexivity|]). destruct H. }
-  unfold normalise. cbn [selection_to_list is_group expand existsb orb].
+  unfold normalise. rewrite is_group_unfold. cbn [selection_to_list expand existsb orb].
   unfold expand_one. rewrite Hd, Hs, (mem_string_in _ _ Hin). cbn [negb orb]. rewrite app_nil_r. reflexivity.
 Qed.
 
@@ -580,7 +612,7 @@ Qed.
 (* fully qualified names are taken verbatim and are then REQUIRED (not skipped when missing) *)
 Lemma normalise_dotted : forall streams l, forallb has_dot l = true -> normalise (RList l) streams = Some (l, false).
 Proof.
-  intros streams l H. unfold normalise. cbn [selection_to_list is_group orb].
+  intros streams l H. unfold normalise. rewrite is_group_unfold. cbn [selection_to_list orb].
   rewrite (expand_dotted _ _ H), (existsb_negb_forallb _ _ H). reflexivity.
 Qed.
 
@@ -703,7 +735,7 @@ Lemma cinterp_hold_app : forall h n x,
 Proof. intros [|a h] n x; simpl app; apply cinterp_hold. Qed.
 Lemma gain_value_ne : forall rs tgs d c ns, gain_nodes rs tgs (target_at tgs d) c = ns -> ns <> [] ->
   gain_value rs tgs d c = recip (cinterp Hold Hold ns (qn d)).
-Proof. intros rs tgs d c ns E H. unfold gain_value. rewrite E. destruct ns; [congruence | reflexivity]. Qed.
+Proof. intros rs tgs d c ns E H. rewrite gain_value_unfold. rewrite E. destruct ns; [congruence | reflexivity]. Qed.
 
 Lemma gain_holds_last : forall rs tgs d c h xn mn pn,
   StronglySorted lt (map fst rs) ->
